@@ -92,7 +92,7 @@ def buildWorld (tmpl : Array (List String)) : St := Id.run do
       | none => pure ()
     | ["M", path] =>
       match lookup realHash st 0 (some path) with
-      | some p => st := { st with nodes := upd st.nodes p (fun n => { n with isset := true }) }
+      | some p => st := { st with nodes := instantiate st.nodes st.next (some p) }   -- the directory and its unset ancestors
       | none => pure ()
     | ["I", path, tok] =>
       match lookup realHash st 0 (some path) with
